@@ -1,30 +1,33 @@
 #!/bin/bash
-# benigntest.sh <patch.diff> [secs]   apply a behaviour-preserving change to /repo, run ALL checks
-# (quick tier, shortened), undo it.  Any VIOLATION here is a false alarm of the machinery
-# (or the change is not behaviour-preserving after all): to be investigated by hand.
-PATCH="$1"; SECS="${2:-20}"
-cd /repo || exit 2
-if [ -n "$(git status --porcelain)" ]; then echo "benigntest: /repo not clean" >&2; exit 2; fi
-git apply "$PATCH" || { echo "benigntest: patch does not apply"; exit 2; }
-trap 'cd /repo && git checkout -q -- . && git clean -fdq' EXIT
-BIN=$(mktemp -d /tmp/benign.XXXXXX)
-/verif/build.sh $BIN/nutsim plain || { echo "benigntest: build failed"; rm -rf $BIN; exit 2; }
-/verif/build.sh $BIN/nutsim.race race || { echo "benigntest: race build failed"; rm -rf $BIN; exit 2; }
-export NUTSIM_RACE_BIN=$BIN/nutsim.race
+# benigntest.sh <patch.diff> [secs] [IDs...]   run the checks (default: ALL, quick tier, shortened) against
+# a scratch worktree of /repo with a behaviour-preserving change applied.  Works on private copies of
+# /verif and /repo (VERIF_DIR / VERIF_REPO), so it can run beside other checks.  Any VIOLATION here is a
+# false alarm of the machinery (or the change is not behaviour-preserving after all): investigate by hand.
+PATCH="$(realpath "$1")"; SECS="${2:-20}"; shift 2 2>/dev/null
+IDS="$*"; [ -z "$IDS" ] && IDS="C01 C02 C03 C04 C05 C06 C07 C08 C09 C10 C11 C12 C13 C14 C15 C16 C17 C18 C19 C20 C21 C22"
+export GOFLAGS=-mod=mod GOPROXY=off GOSUMDB=off GOTOOLCHAIN=local
+SCR=$(mktemp -d /tmp/benign.XXXXXX)
+trap 'git -C /repo worktree remove --force '$SCR'/repo 2>/dev/null; git -C /repo worktree prune; rm -rf '$SCR EXIT
+git -C /repo worktree add -q --detach $SCR/repo HEAD || exit 2
+git -C $SCR/repo apply "$PATCH" || { echo "benigntest: patch does not apply"; exit 2; }
+mkdir -p $SCR/verif
+rsync -a --exclude .git --exclude bin --exclude evidence --exclude replays --exclude seeded /verif/ $SCR/verif/
+mkdir -p $SCR/verif/evidence $SCR/verif/replays
+export VERIF_DIR=$SCR/verif VERIF_REPO=$SCR/repo
+$SCR/verif/build.sh $SCR/nutsim plain || { echo "benigntest: build failed"; exit 2; }
+$SCR/verif/build.sh $SCR/nutsim.race race || { echo "benigntest: race build failed"; exit 2; }
+export NUTSIM_RACE_BIN=$SCR/nutsim.race
 bad=0
-for id in C01 C02 C03 C04 C05 C06 C07 C08 C09 C10 C11 C12 C13 C14 C15 C16 C17 C18 C19 C20 C21 C22; do
-  out=$($BIN/nutsim check -prop $id -tier quick -secs $SECS 2>&1)
+for id in $IDS; do
+  out=$($SCR/nutsim check -prop $id -tier quick -secs $SECS 2>&1)
   rc=$?
   nv=$(echo "$out" | grep -c '^VIOLATION')
   if [ $rc -ne 0 ] || [ $nv -ne 0 ]; then
     bad=1
     echo "== $id rc=$rc $nv violation(s)"
     echo "$out" | grep -A3 '^VIOLATION\|trouble' | head -12 | cut -c1-400
-    mkdir -p /tmp/benign-replays; cp /verif/replays/$id-*.json /tmp/benign-replays/ 2>/dev/null
+    mkdir -p /tmp/benign-replays; cp $SCR/verif/replays/$id-*.json /tmp/benign-replays/ 2>/dev/null
   fi
 done
-[ $bad -eq 0 ] && echo "benigntest: all 22 checks quiet"
-rm -rf $BIN
-cd /verif && git checkout -q -- evidence 2>/dev/null
-rm -f /verif/replays/*.json
+[ $bad -eq 0 ] && echo "benigntest: all checks quiet ($IDS)"
 exit $bad
